@@ -798,6 +798,10 @@ type Data struct {
 
 	metadata   map[Schema][]byte
 	metadataMu sync.RWMutex
+
+	// writeMu serializes annotation writes and deletes: each one reads the stored annotation,
+	// derives the new one and updates both the in-memory db and the store.
+	writeMu sync.Mutex
 }
 
 // IsMutationRequest overrides the default behavior to specify POST /query as an immutable
@@ -1412,6 +1416,9 @@ func (d *Data) storeAndUpdate(ctx *datastore.VersionedCtx, keyStr string, newDat
 		return err
 	}
 
+	d.writeMu.Lock()
+	defer d.writeMu.Unlock()
+
 	// get original data so we can handle default update and tell which values change for _user/_time fields.
 	origData, found, err := d.getStoreData(ctx, keyStr)
 	if err != nil {
@@ -1577,6 +1584,9 @@ func (d *Data) DeleteData(ctx storage.VersionedCtx, keyStr string) error {
 	if err != nil {
 		return err
 	}
+	d.writeMu.Lock()
+	defer d.writeMu.Unlock()
+
 	mdb, found := d.getMemDBbyVersion(ctx.VersionID())
 	if found {
 		mdb.mu.Lock()
